@@ -205,6 +205,25 @@ impl Assembler {
         path: Option<&LibraryPath>,
         context: &mut AssemblyContext,
     ) -> Result<Vec<RpoDigest>, AssemblyError> {
+        // aliases of re-exported procedures are added to the procedure cache before the local
+        // procedures are compiled; if the module then fails to compile, they must not stay behind
+        let mut aliases = Vec::new();
+        let result = self.compile_module_inner(module, path, context, &mut aliases);
+        if result.is_err() {
+            if let Ok(mut proc_cache) = self.proc_cache.try_borrow_mut() {
+                aliases.iter().for_each(|alias_id| proc_cache.remove_proc_alias(alias_id));
+            }
+        }
+        result
+    }
+
+    fn compile_module_inner(
+        &self,
+        module: &ModuleAst,
+        path: Option<&LibraryPath>,
+        context: &mut AssemblyContext,
+        aliases: &mut Vec<ProcedureId>,
+    ) -> Result<Vec<RpoDigest>, AssemblyError> {
         // a variable to track MAST roots of all procedures exported from this module
         let mut proc_roots = Vec::new();
         context.begin_module(path.unwrap_or(&LibraryPath::anon_path()), module)?;
@@ -222,10 +241,13 @@ impl Assembler {
             let proc_mast_root = if let Some(path) = path {
                 let proc_name = reexporteed_proc.name();
                 let alias_proc_id = ProcedureId::from_name(proc_name, path);
-                self.proc_cache
+                let proc_mast_root = self
+                    .proc_cache
                     .try_borrow_mut()
                     .map_err(|_| AssemblyError::InvalidCacheLock)?
-                    .insert_proc_alias(alias_proc_id, ref_proc_id)?
+                    .insert_proc_alias(alias_proc_id, ref_proc_id)?;
+                aliases.push(alias_proc_id);
+                proc_mast_root
             } else {
                 self.proc_cache
                     .try_borrow_mut()
